@@ -52,7 +52,7 @@ def floors(tier):
     return {'evaluations': 20000, 'distinct_nontrivial': 10000, 'comment_markers_checked': 20000,
             'formula_markers_checked': 20000, 'discard_markers_checked': 5000, 'histkeys:position': 15,
             'histkeys:math_env': 15, 'histkeys:option_cell': 24, 'k2_witness_checked': 1,
-            'formulas_with_escaped_active_characters': 500, 'histkeys:entry_point': 3, 'hist:entry_point:latex2text()': 1000}
+            'formulas_with_escaped_active_characters': 500, 'histkeys:entry_point': 3, 'crlf_documents': 500, 'hist:entry_point:latex2text()': 1000}
 
 
 def setup(rec):
@@ -340,6 +340,17 @@ def run_shard(desc, rec):
             if (i * 11 + ci) % 2003 == 0:
                 rec.sample({'document': doc, 'options': opts})
             check_case(case, rec)
+        # the same document with Windows line endings
+        if i % 4 == 1:
+            crlf = doc.replace('\n', '\r\n')
+            fcr = [dict(f, src=f['src'].replace('\n', '\r\n')) if f else f for f in g.formulas]
+            for _ in range(2):
+                mm, kc, sp, ft = combos[ci % len(combos)]
+                ci += 1
+                opts = {'math_mode': mm, 'keep_comments': kc, 'strict_latex_spaces': SPACES[sp], 'fill_text': FILL[ft]}
+                rec.case()
+                rec.monitor('crlf_documents')
+                check_case({'doc': crlf, 'markers': g.markers, 'formulas': fcr, 'opts': opts}, rec)
         # the deprecated module-level entry points: their two flags in all four combinations
         if i % 3 == 0:
             for kim in (False, True):
